@@ -220,15 +220,17 @@ def job(j):
         # directed: 7 keys (several leaves), then every non-mutating call of the alphabet (also the failing ones)
         directed = [tuple(fill[:7]) + reads, tuple(fill[:7][::-1]) + reads]
         for h in directed + list(H.histories(core, full, rng.randrange(10 ** 6), exh, nrand, 28)):
+            hrng = random.Random(rng.randrange(1 << 30))       # the seeded places of this history
             if impl == "c":         # the C code may crash when an eviction goes wrong: observe that too
-                res = H.guarded(run_history, cls, is_set, h, mode, arg, rng, set())
+                res = H.guarded(run_history, cls, is_set, h, mode, arg, hrng, set())
                 if res[0] == "crash":
                     n, new = res[2], ()
-                    bad = ("crash", "the process died with signal %d during call %r" % (res[1], h[res[2] - 1]), res[2] - 1)
+                    bad = ("hang" if res[1] == 14 else "crash", "the process %s during call %r" %
+                           ("did not finish within 10 s" if res[1] == 14 else "died with signal %d" % res[1], h[res[2] - 1]), res[2] - 1)
                 else:
                     n, bad, new = res[1]
             else:
-                n, bad, new = run_history(cls, is_set, h, mode, arg, rng, set())
+                n, bad, new = run_history(cls, is_set, h, mode, arg, hrng, set())
             evals += n
             cases.update(new)
             if not bad:
